@@ -161,6 +161,9 @@ Section WithHash.
                 | Link => Ok (LinkC d, cput c d b, set_cs a d)
                 | Copy => Ok (n, cput c d b, set_cs a d)
                 end
+         | LinkC d =>
+           (* a link to another existing object of the cache is adopted (repaired tree) *)
+           if in_cache c d then Ok (n, c, set_cs a d) else Err
          | _ => Err
          end.
 
